@@ -1807,6 +1807,10 @@ def correspond(ctx):
         "fcntl/fasteners: mutual exclusion between processes and release on process death (exercised, not proved)",
         "local filesystem semantics of rename/unlink/symlink (atomic per call)",
     ]
+    if not os.environ.get("C16_NO_EFFECT_KILLS"):  # kill points derived from the generated effect sequences (c16x_effects.py)
+        from . import c16x_effects
+
+        c16x_effects.correspond_effects(ctx)
     n = ctx.scale(150, 2000)
     ncli = ctx.scale(2, 46)
     # the histories through the command line come first: they take seconds each and go to different workers
